@@ -5,7 +5,8 @@
  *
  * usage: drv_dtls <cases.txt> <out.ndjson>
  *   X id=<n> cid=<client identity> ckey=<client key> sk=<id:key,id:key,...> hint=<server hint> acc=<1: client accepts the hint>
- *     nq=<requests queued during the handshake> inj=<0 | 1 cleartext CoAP from a new peer | 2 cleartext CoAP from the client's address>
+ *     nq=<requests queued during the handshake> obs=<k: the k-th of them carries Observe (per-request state in the library); 9: all of them>
+ *     tk2=<1: two-byte tokens (i, 0xee) instead of the one-byte token i> inj=<0 | 1 cleartext CoAP from a new peer | 2 cleartext CoAP from the client's address>
  *     rel=<release the client session after this many ms of virtual time; 0 = never> idcb=<1: server checks the identity, 0: one key for all>
  *     drop=<indices of datagrams to lose, e.g. 0,3>   dup=<indices of datagrams the network delivers twice (the copy right behind the original)>
  *     mute=1: every application-data record from the server is lost (alerts pass)   sclose=<ms>: the server context is freed after that time
@@ -24,7 +25,7 @@ static coap_context_t *sctx, *cctx;
 static coap_session_t *csess;
 static coap_address_t srv_addr;
 static char cid[64], ckey[64], hint[64], skid[MAXK][64], skkey[MAXK][64];
-static int nsk, acc, nq, inj, rel, idcb, emitted, nsni, muted;
+static int nsk, acc, nq, inj, rel, idcb, emitted, nsni, muted, obsq, tk2;
 static char sni[64], warm[64], snin[MAXK][64], snikey[MAXK][64];
 static coap_dtls_spsk_info_t sni_info;
 static coap_dtls_cpsk_info_t winfo;       /* what the warm-up session presents */
@@ -75,11 +76,13 @@ static const coap_dtls_cpsk_info_t *ih_cb(coap_str_const_t *h, coap_session_t *s
 }
 static void h_get(coap_resource_t *r, coap_session_t *s, const coap_pdu_t *req, const coap_string_t *q, coap_pdu_t *resp) {
   coap_bin_const_t t = coap_pdu_get_token(req);
-  (void)r; (void)q;
+  (void)r;
   coap_pdu_set_code(resp, COAP_RESPONSE_CODE_CONTENT);
   coap_add_data(resp, 2, (const uint8_t *)"ok");
   if (muted) return;
   fprintf(sim_trace, "{\"e\":\"SrvReq\",\"t\":%llu,\"proto\":%d,\"tok\":", (unsigned long long)sim_now, (int)coap_session_get_proto(s));
+  /* the queued requests carry their number as the query (the token on the wire may be the library's own: block-wise / observe state) */
+  if (q && q->length == 1) arr(q->s, 1); else
   arr(t.s, t.length <= 8 ? t.length : 8);
   fputs("}\n", sim_trace);
 }
@@ -147,8 +150,8 @@ static void run_case(int id) {
   int i;
   sim_reset(1000);
   emitted = 0;
-  fprintf(sim_trace, "{\"e\":\"Reset\",\"id\":%d,\"cid\":\"%s\",\"ckey\":\"%s\",\"hint\":\"%s\",\"acc\":%s,\"idcb\":%s,\"nq\":%d,\"inj\":%d,\"rel\":%d,\"ndrops\":%d,\"snicb\":%s,\"sni\":\"%s\",\"warm\":\"%s\",\"table\":[",
-          id, cid, ckey, hint, acc ? "true" : "false", idcb ? "true" : "false", nq, inj, rel, ndrops + (mute_srv ? 1 : 0), nsni ? "true" : "false", sni, warm);
+  fprintf(sim_trace, "{\"e\":\"Reset\",\"id\":%d,\"cid\":\"%s\",\"ckey\":\"%s\",\"hint\":\"%s\",\"acc\":%s,\"idcb\":%s,\"nq\":%d,\"obs\":%d,\"tk2\":%d,\"inj\":%d,\"rel\":%d,\"ndrops\":%d,\"snicb\":%s,\"sni\":\"%s\",\"warm\":\"%s\",\"table\":[",
+          id, cid, ckey, hint, acc ? "true" : "false", idcb ? "true" : "false", nq, obsq, tk2, inj, rel, ndrops + (mute_srv ? 1 : 0), nsni ? "true" : "false", sni, warm);
   for (i = 0; i < nsk; i++) fprintf(sim_trace, "%s[\"%s\",\"%s\"]", i ? "," : "", skid[i], skkey[i]);
   fputs("],\"snitable\":[", sim_trace);
   for (i = 0; i < nsni; i++) fprintf(sim_trace, "%s[\"%s\",\"%s\"]", i ? "," : "", snin[i], snikey[i]);
@@ -174,6 +177,8 @@ static void run_case(int id) {
   coap_add_resource(sctx, r);
   sim_add_node(sctx);
   cctx = coap_new_context(NULL);
+  if (obsq)        /* the library keeps per-request state (lg_crcv) for a request that carries Observe */
+    coap_context_set_block_mode(cctx, COAP_BLOCK_USE_LIBCOAP);
   coap_register_response_handler(cctx, h_resp);
   coap_register_nack_handler(cctx, h_nack);
   coap_register_event_handler(cctx, h_cevent);
@@ -215,10 +220,13 @@ static void run_case(int id) {
   if (!csess) fputs("{\"e\":\"NoSession\"}\n", sim_trace);
   for (i = 1; csess && i <= nq; i++) {
     coap_pdu_t *pdu = coap_new_pdu(COAP_MESSAGE_CON, COAP_REQUEST_CODE_GET, csess);
-    uint8_t tk = (uint8_t)i;
+    uint8_t tk[2] = { (uint8_t)i, 0xee };
     coap_mid_t mid;
-    coap_add_token(pdu, 1, &tk);
+    coap_add_token(pdu, tk2 ? 2 : 1, tk);
+    if (obsq == i || obsq == 9)
+      coap_add_option(pdu, COAP_OPTION_OBSERVE, 0, NULL);
     coap_add_option(pdu, COAP_OPTION_URI_PATH, 1, (const uint8_t *)"r");
+    coap_add_option(pdu, COAP_OPTION_URI_QUERY, 1, tk);
     mid = coap_send(csess, pdu);
     fprintf(sim_trace, "{\"e\":\"Submit\",\"tok\":[%d],\"ok\":%d}\n", i, mid != COAP_INVALID_MID);
   }
@@ -283,6 +291,8 @@ int main(int argc, char **argv) {
       field(line, " acc=", buf, sizeof(buf)); acc = atoi(buf);
       field(line, " nq=", buf, sizeof(buf)); nq = atoi(buf);
       field(line, " inj=", buf, sizeof(buf)); inj = atoi(buf);
+      buf[0] = 0; field(line, " obs=", buf, sizeof(buf)); obsq = atoi(buf);
+      buf[0] = 0; field(line, " tk2=", buf, sizeof(buf)); tk2 = atoi(buf);
       field(line, " rel=", buf, sizeof(buf)); rel = atoi(buf);
       field(line, " idcb=", buf, sizeof(buf)); idcb = atoi(buf);
       field(line, " drop=", buf, sizeof(buf));
